@@ -63,7 +63,11 @@ def _raw(key):
 
 
 def decode_other(key, fn):
-    """Decode the canned other unit for `key` with the decoder fn (exceptions from the probe itself are ignored)."""
+    """Decode the canned other unit for `key` with the decoder fn (exceptions from the probe itself are ignored).
+    Before that the receive buffers handed to decoders so far are overwritten in place (core.scramble): the decoded object
+    under test must own what it shows."""
+    from .core import scramble
+    scramble()
     try:
         fn(_raw(key))
     except Exception:  # noqa
